@@ -210,7 +210,8 @@ def signature(trace, clause, flags):
 def judge(res, pid, traces, workdir, monitors=etrace.ALL_MONITORS, nontrivial=None):
     """validate traces with TLC and turn verdict clauses that speak to `pid` into violations"""
     verdicts, stats, byid = etrace.validate(traces, workdir, monitors=monitors, exact_expected=exact_expected)
-    for t in stats.pop("inexact"):
+    inexact_list = stats.pop("inexact")
+    for t in inexact_list:
         res.traces += 1
         if pid in clause_property(t["cfg"]["rule"], "Scores"):
             big = [x for x in rats_in({a: b for a, b in t.items() if not a.startswith("_")}) if abs(x[0]) > RAT_BOUND or x[1] > RAT_BOUND][:2]
@@ -241,6 +242,23 @@ def judge(res, pid, traces, workdir, monitors=etrace.ALL_MONITORS, nontrivial=No
                     t["cfg"]["rule"], rec["l"], clause, rec["status"], rec.get("flags", [])),
                     {"input": t["_inp"], "trace": {k: x for k, x in t.items() if not k.startswith("_")}, "verdict": rec})
     res.notes.setdefault("verdict_clauses_seen", {}).update(clause_counts)
+    # traces TLC had to skip because a logged number leaves its exact range (chained fractional surpluses do that on small inputs too):
+    # the STV-family ones are read by the exact-fraction transcription instead of being dropped (python_compared)
+    from .. import stv_mirror as M
+    inex = {id(t) for t in inexact_list}
+    nsk = 0
+    for t in traces:
+        if t.get("id") in byid or id(t) in inex or t["cfg"]["rule"] not in STV_RULES or t["cfg"]["xfer"] == "random" or not t.get("has_round0"):
+            continue
+        nsk += 1
+        for clause, i in M.check_trace(t):
+            if clause != "KF" and pid in clause_property(t["cfg"]["rule"], clause):
+                res.violation("%s:Wide(py):%s" % (t["cfg"]["rule"], clause), "count of %s outside TLC's exact range: event %d violates clause %s of the "
+                              "exact-fraction reading of Election.tla" % (t["cfg"]["rule"], i, clause),
+                              {"input": t["_inp"], "trace": {k: x for k, x in t.items() if not k.startswith("_")}})
+    if nsk:
+        res.notes["skipped_traces_read_by_transcription"] = res.notes.get("skipped_traces_read_by_transcription", 0) + nsk
+        res.notes["python_compared"] = res.notes.get("python_compared", 0) + nsk
     acc = [byid[tid] for tid, v in verdicts.items() if not etrace.problems(v)]
     for t in acc[:2]:
         res.sample({"cfg": t["cfg"], "prof0": t["prof0"], "events": t["events"][:3], "verdict": "accepted"})
